@@ -130,6 +130,133 @@ def cover_walks(g, maxlen=300, budget=12000):
     return walks, nedges - len(uncovered), nedges
 
 
+def split_state(text):
+    """Fields of a state record `[v1 |-> e1, v2 |-> e2, ...]` as dumped by the executor: {name: expression text}."""
+    t = text.strip()
+    if not (t.startswith("[") and t.endswith("]")):
+        raise V.Inconclusive("unexpected state record: " + t[:80])
+    t = t[1:-1]
+    parts, depth, i, start, instr = [], 0, 0, 0, False
+    while i < len(t):
+        c = t[i]
+        if instr:
+            if c == "\\":
+                i += 1
+            elif c == '"':
+                instr = False
+        elif c == '"':
+            instr = True
+        elif t.startswith("<<", i):
+            depth += 1; i += 1
+        elif t.startswith(">>", i):
+            depth -= 1; i += 1
+        elif c in "([{":
+            depth += 1
+        elif c in ")]}":
+            depth -= 1
+        elif c == "," and depth == 0:
+            parts.append(t[start:i]); start = i + 1
+        i += 1
+    parts.append(t[start:])
+    out = {}
+    for p_ in parts:
+        name, _, val = p_.partition("|->")
+        out[name.strip()] = val.strip()
+    return out
+
+
+def delta_trace_module(module, variables, runs, reset_extra):
+    """<module>Trace for P-level judgement of recorded executions (same shape as tracegen's conform=False module:
+    the recorded states are taken as they are, the history variables follow HStep, executions are concatenated
+    with a reset), but every step record carries only the variables whose printed value changed -- SANY's time on
+    the embedded data dominates these runs and most steps change two or three of ten to twenty variables."""
+    recs = []
+    for r in runs:
+        prev = None
+        for st in r:
+            f = split_state(st)
+            if sorted(f) != sorted(variables):
+                raise V.Inconclusive("state record does not carry the spec's variables: %s vs %s" % (sorted(f), sorted(variables)))
+            if prev is None:
+                recs.append('[k |-> "i", st |-> %s]' % st)
+            else:
+                ch = [v for v in variables if f[v] != prev[v]]
+                recs.append('[k |-> "s", st |-> %s]' % ("[" + ", ".join("%s |-> %s" % (v, f[v]) for v in ch) + "]" if ch else "<<>>"))
+            prev = f
+    match = " /\\ ".join("%s = zst.%s" % (v, v) for v in variables)
+    matchfull = " /\\ ".join("%s' = zst.%s" % (v, v) for v in variables)
+    matchd = " /\\ ".join("%s' = (IF \"%s\" \\in DOMAIN zst THEN zst.%s ELSE %s)" % (v, v, v, v) for v in variables)
+    return """---- MODULE %(m)sTrace ----
+EXTENDS %(m)s
+VARIABLE l
+ZTrace == <<
+%(data)s
+>>
+ZMatch(zst) == %(match)s
+ZMatchFullP(zst) == %(matchfull)s
+ZMatchDeltaP(zst) == %(matchd)s
+ZKind(zkind) == l < Len(ZTrace) /\\ ZTrace[l + 1].k = zkind /\\ l' = l + 1
+TraceInit == l = 1 /\\ HInit /\\ ZMatch(ZTrace[1].st)
+TraceStep == ZKind("s") /\\ ZMatchDeltaP(ZTrace[l + 1].st) /\\ HStep
+TraceReset == ZKind("i") /\\ ZMatchFullP(ZTrace[l + 1].st) %(rx)s /\\ (HInit)'
+TraceNext == TraceStep \\/ TraceReset
+====
+""" % {"m": module, "data": ",\n".join(recs), "match": match, "matchfull": matchfull, "matchd": matchd, "rx": reset_extra}
+
+
+def validate_delta(specdir, module, variables, runs, constants, invariants, reset_extra, chunks=1, timeout=1500):
+    """One TLC run per chunk of runs over delta_trace_module. Returns what tracegen.validate_runs returns:
+    dict(accepted, rejected=[dict(run_index, kind 'invariant'|'stuck', state_index, text)], states, transitions, errors).
+    A chunk stops at its first rejected run (the caller decides how to go on)."""
+    import shutil, tempfile
+    out = {"accepted": 0, "rejected": [], "states": 0, "transitions": 0, "errors": []}
+    idx = [i for i, r in enumerate(runs) if r]
+    if not idx:
+        return out
+    cfgtext = T.make_cfg(constants, invariants, [])
+    chunks = max(1, min(chunks, len(idx)))
+    parts = [idx[i::chunks] for i in range(chunks)]
+
+    def work(part):
+        rr = [runs[i] for i in part]
+        total = sum(len(r) for r in rr)
+        w = tempfile.mkdtemp(prefix="tv.", dir=os.path.dirname(specdir))
+        try:
+            V.copy_specs(specdir, w, names=[f for f in os.listdir(specdir) if f.endswith(".tla")])
+            open(os.path.join(w, module + "Trace.tla"), "w").write(delta_trace_module(module, variables, rr, reset_extra))
+            open(os.path.join(w, module + "Trace.cfg"), "w").write(cfgtext)
+            res = V.tlc(w, module + "Trace", cfg=module + "Trace.cfg", workers=1, timeout=timeout, deadlock=False)
+        finally:
+            shutil.rmtree(w, ignore_errors=True)
+        if res.timed_out or res.error:
+            return 0, None, res, [(res.error or "timeout") + " :: " + res.out[-1500:]]
+        if res.violation:
+            m = re.findall(r"^/\\ l = (\d+)", res.out, re.M)
+            pos, kind = (int(m[-1]) if m else 1), "invariant"
+        elif res.depth < total:
+            pos, kind = res.depth + 1, "stuck"
+        else:
+            return len(part), None, res, []
+        n, hit = 0, len(part) - 1
+        for j, r in enumerate(rr):
+            if pos <= n + len(r):
+                hit = j
+                break
+            n += len(r)
+        return hit, {"run_index": part[hit], "kind": kind, "state_index": pos - n,
+                     "text": res.violation or "recorded state cannot be taken (not an initial state of the spec?)"}, res, []
+
+    with concurrent.futures.ThreadPoolExecutor(max_workers=chunks) as ex:
+        for acc, rej, res, errs in ex.map(work, parts):
+            out["accepted"] += acc
+            if rej:
+                out["rejected"].append(rej)
+            out["states"] += res.distinct
+            out["transitions"] += res.generated
+            out["errors"] += errs
+    return out
+
+
 INV_RE = re.compile(r"(?:Invariant|Action property) (\w+) is violated")
 
 
@@ -165,7 +292,7 @@ class System:
         self.design_cex = {}      # invariant -> TLC text (model-level counterexamples)
         self.reproduced = set()   # invariants violated by a real-code state
         self.labels = {}          # label -> committed steps of the generated code
-        self.stats = {"design": [], "graph": [], "run": [], "witness": []}
+        self.stats = {"design": [], "go": [], "witness": []}
 
     def consts(self, cfg):
         d = S._args_dict(cfg.get("args", ""))
@@ -218,12 +345,10 @@ class System:
     def judge(self, chk, runs, metas, cs, what, chunks):
         invs = list(self.invs)
         left = list(range(len(runs)))
-        kw = dict(conform=False, hist_step="HStep", use_init="HInit", reset_extra=self.obs["reset"])
         total = {"accepted": 0, "passes": 0}
         while left and total["passes"] < 6:
             total["passes"] += 1
-            res = T.validate_runs(self.work, self.module, self.variables, [runs[i] for i in left], cs, invs, [], chunks=chunks,
-                                  timeout=2400, max_rounds=1, **kw)
+            res = validate_delta(self.work, self.module, self.variables, [runs[i] for i in left], cs, invs, self.obs["reset"], chunks=chunks, timeout=2400)
             chk.states += res["states"]; chk.transitions += res["transitions"]
             if not res["rejected"]:
                 for e in res["errors"]:
@@ -245,7 +370,8 @@ class System:
                 st = run[rj["state_index"] - 1] if 0 < rj["state_index"] <= len(run) else None
                 prev = run[rj["state_index"] - 2] if 1 < rj["state_index"] <= len(run) else None
                 self.reproduced.add(inv)
-                chk.violation("C16:%s:%s:%s" % (self.name, inv, what.split()[0]),
+                kind = "graph" if (metas and metas[ri].get("kind")) else "run"
+                chk.violation("C16:%s:%s:%s" % (self.name, inv, kind),
                               "%s (%s): %s in a state reached by the generated code (state %d of the execution)" % (self.name, what, rj["text"], rj["state_index"]),
                               {"system": self.name, "what": what, "tlc": rj["text"], "state_index": rj["state_index"], "state": st, "previous_state": prev,
                                "constants": cs, "meta": metas[ri] if metas else None})
@@ -265,16 +391,15 @@ class System:
 
     def witness_go(self, chk, runs, cs, what):
         """Non-vacuity on the real-code side: each witness predicate must be violated by some recorded execution."""
-        kw = dict(conform=False, hist_step="HStep", use_init="HInit", reset_extra=self.obs["reset"])
         ws = self.obs.get("witnesses", [])
         tot, sub = 0, []
-        for r in runs:          # reachability needs some executions only: the first ones, up to ~1000 states
-            if sub and tot + len(r) > 1000:
+        for r in runs:          # reachability needs some executions only: the first ones, up to ~700 states
+            if sub and tot + len(r) > 700:
                 break
             sub.append(r); tot += len(r)
         runs = sub
         with concurrent.futures.ThreadPoolExecutor(max_workers=max(1, len(ws))) as ex:
-            results = list(ex.map(lambda w: T.validate_runs(self.work, self.module, self.variables, runs, cs, [w], [], chunks=1, timeout=1500, max_rounds=1, **kw), ws))
+            results = list(ex.map(lambda w: validate_delta(self.work, self.module, self.variables, runs, cs, [w], self.obs["reset"], chunks=1, timeout=1500), ws))
         for w, res in zip(ws, results):
             chk.states += res["states"]; chk.transitions += res["transitions"]
             hit = any(w in rj["text"] for rj in res["rejected"])
@@ -282,61 +407,56 @@ class System:
             if not hit:
                 chk.gaps.append("%s %s: no recorded execution reaches %s (the implication it guards was not exercised there)" % (self.name, what, w))
 
-    # ---- (a) state graph of the generated code
-    def graph(self, chk, i, cfg):
+    # ---- the generated code on one instance: (a) its state graph, (b) executions under Run; one TLC judgement for both
+    def go(self, chk, i, cfg):
         args, cs = self.consts(cfg)
         n = cfg["n"]
-        out = S.drive(chk, self.drv, self.name, n, "bfs", 0, cfg.get("max_states", 20000), args=args, tag="-c16g%d" % i)
-        g = T.load_graph(out)
-        self.count_labels([e[2] for e in g["edges"]])
-        for e in g["errors"]:
-            chk.violation("C16:%s:go-error:%s" % (self.name, e.get("label")),
-                          "%s n=%d %s: generated code failed (assertion / panic) from a reachable state at label %s: %s" % (self.name, n, args, e.get("label"), e.get("msg")),
-                          dict(e, system=self.name, n=n, args=args, from_state=g["states"].get(e.get("from"))))
-        keep, covered, nedges = cover_walks(g, cfg.get("walk_len", 300), cfg.get("max_walk_states", 6000))
-        tot = sum(len(w) for w in keep)
-        what = "graph n=%d %s" % (n, args)
-        r = self.judge(chk, keep, None, cs, what, self.chunks(cfg, tot))
-        if cfg.get("witness"):
-            self.witness_go(chk, keep, cs, what)
-        if not g["summary"]:
-            raise V.Inconclusive("sysdrv bfs %s wrote no summary" % self.name)
-        self.stats["graph"].append({"n": n, "args": args, "go_states": g["summary"]["states"], "go_edges": g["summary"]["edges"], "complete": g["summary"].get("complete"),
-                                    "walks": len(keep), "edges_covered": covered, "walk_states": tot, "accepted": r["accepted"]})
-        if keep:
-            chk.sample({"system": self.name, "kind": "graph walk", "n": n, "args": args, "first_states": keep[-1][:2]})
-
-    # ---- (b) executions under Run
-    def runs(self, chk, i, cfg):
-        args, cs = self.consts(cfg)
-        n = cfg["n"]
-        out = S.drive(chk, self.drv, self.name, n, cfg.get("policy", "random"), cfg["runs"], cfg["steps"], args=args, tag="-c16r%d" % i)
-        rs = T.load_steps(out)
-        for r in rs:
-            self.count_labels(r["lines"])
-            for e in r["errors"]:
+        what = "n=%d %s" % (n, args)
+        runs, metas, st = [], [], {"n": n, "args": args}
+        b = cfg.get("bfs")
+        if b is not None:
+            out = S.drive(chk, self.drv, self.name, n, "bfs", 0, b.get("max_states", 20000), args=args, tag="-c16g%d" % i)
+            g = T.load_graph(out)
+            if not g["summary"]:
+                raise V.Inconclusive("sysdrv bfs %s wrote no summary" % self.name)
+            self.count_labels([e[2] for e in g["edges"]])
+            for e in g["errors"]:
                 chk.violation("C16:%s:go-error:%s" % (self.name, e.get("label")),
-                              "%s n=%d %s: generated code failed during an execution at label %s: %s" % (self.name, n, args, e.get("label"), e.get("msg")),
-                              {"system": self.name, "n": n, "args": args, "meta": r["meta"], "error": e, "schedule": S.schedule_of(r, 400)})
-        what = "run n=%d %s" % (n, args)
-        states = [r["states"] for r in rs]
-        res = self.judge(chk, states, [dict(r["meta"], schedule=S.schedule_of(r, 80)) for r in rs], cs, what, self.chunks(cfg, sum(len(x) for x in states)))
-        if cfg.get("witness"):
-            self.witness_go(chk, states, cs, what)
-        self.stats["run"].append({"n": n, "args": args, "runs": len(rs), "states": sum(len(x) for x in states), "accepted": res["accepted"]})
-        if rs:
-            chk.sample({"system": self.name, "kind": "execution under Run", "n": n, "args": args, "seed": rs[0]["meta"].get("seed"),
-                        "schedule_prefix": S.schedule_of(rs[0], 12)})
+                              "%s %s: generated code failed (assertion / panic) from a reachable state at label %s: %s" % (self.name, what, e.get("label"), e.get("msg")),
+                              dict(e, system=self.name, n=n, args=args, from_state=g["states"].get(e.get("from"))))
+            walks, covered, nedges = cover_walks(g, b.get("walk_len", 300), b.get("max_walk_states", 4000))
+            runs += walks
+            metas += [{"kind": "walk of the state graph explored with the generated code"}] * len(walks)
+            st["graph"] = {"go_states": g["summary"]["states"], "go_edges": nedges, "complete": g["summary"].get("complete"), "walks": len(walks),
+                           "edges_covered": covered, "walk_states": sum(len(w) for w in walks)}
+            if walks:
+                chk.sample({"system": self.name, "kind": "graph walk", "n": n, "args": args, "first_states": walks[-1][:2]})
+        r = cfg.get("random")
+        if r is not None:
+            out = S.drive(chk, self.drv, self.name, n, r.get("policy", "random"), r["runs"], r["steps"], args=args, tag="-c16r%d" % i)
+            rs = T.load_steps(out)
+            for x in rs:
+                self.count_labels(x["lines"])
+                for e in x["errors"]:
+                    chk.violation("C16:%s:go-error:%s" % (self.name, e.get("label")),
+                                  "%s %s: generated code failed during an execution at label %s: %s" % (self.name, what, e.get("label"), e.get("msg")),
+                                  {"system": self.name, "n": n, "args": args, "meta": x["meta"], "error": e, "schedule": S.schedule_of(x, 400)})
+            runs += [x["states"] for x in rs]
+            metas += [dict(x["meta"], schedule=S.schedule_of(x, 80)) for x in rs]
+            st["runs"] = {"runs": len(rs), "policy": r.get("policy", "random"), "states": sum(len(x["states"]) for x in rs)}
+            if rs:
+                chk.sample({"system": self.name, "kind": "execution under Run", "n": n, "args": args, "seed": rs[0]["meta"].get("seed"),
+                            "schedule_prefix": S.schedule_of(rs[0], 12)})
+        with concurrent.futures.ThreadPoolExecutor(max_workers=2) as ex:   # the witness runs go side by side with the judgement
+            fw = ex.submit(self.witness_go, chk, runs, cs, what) if cfg.get("witness") else None
+            res = self.judge(chk, runs, metas, cs, what, self.chunks(cfg, sum(len(x) for x in runs)))
+            if fw:
+                fw.result()
+        st["accepted"], st["passes"] = res["accepted"], res["passes"]
+        self.stats["go"].append(st)
 
     def jobs(self):
-        out = []
-        for i, c in enumerate(self.plan.get("design", [])):
-            out.append(("design", i, c))
-        for i, c in enumerate(self.plan.get("bfs", [])):
-            out.append(("graph", i, c))
-        for i, c in enumerate(self.plan.get("random", [])):
-            out.append(("run", i, c))
-        return out
+        return [("design", i, c) for i, c in enumerate(self.plan.get("design", []))] + [("go", i, c) for i, c in enumerate(self.plan.get("go", []))]
 
     def conclude(self, chk):
         """After all jobs of the system: model-level counterexamples must have been reproduced on the code; coverage of labels."""
@@ -385,7 +505,7 @@ def run(chk):
         sub = chk.fork()
         t0 = time.time()
         try:
-            {"design": s.design, "graph": s.graph, "run": s.runs}[kind](sub, i, c)
+            {"design": s.design, "go": s.go}[kind](sub, i, c)
         except V.Inconclusive as e:
             sub.inconclusive.append("%s %s: %s" % (s.name, kind, str(e)[:600]))
         return s.name, kind, i, sub, time.time() - t0
